@@ -176,14 +176,14 @@ theorem bind_reject_harmless (c : Cfg) (s : State) (k : Key) (sz tid : Nat) (cr 
 /-- **duplicate Connect**: a Connect to a peer the allocation already has a connection with is
     answered 446 and changes nothing -/
 theorem dupe_446 (c : Cfg) (s : State) (lid : Nat) (a : Alloc) (p : Addr) (dialOK : Bool) (cid : Nat)
-    (hg : granted c lid p.ip = true) (hp : p.port ≠ 0) (hd : dupeConn a p = true) :
-    connectChecks c s lid a (.val p) dialOK cid = some (.error 446) := by
+    (hg : granted c k p.ip = true) (hp : p.port ≠ 0) (hd : dupeConn a p = true) :
+    connectChecks c s k a (.val p) dialOK cid = some (.error 446) := by
   simp [connectChecks, hg, hp, hd]
 
 /-- a Connect success registers an id no allocation of this listener's manager uses, for a peer the
     operator granted and the allocation is not yet connected to -/
-theorem connect_fresh_id {c s lid a peer dialOK cid p} (h : connectChecks c s lid a peer dialOK cid = some (.ok p)) :
-    cidUsed s lid cid = false ∧ granted c lid p.ip = true ∧ dupeConn a p = false :=
+theorem connect_fresh_id {c s k a peer dialOK cid p} (h : connectChecks c s k a peer dialOK cid = some (.ok p)) :
+    cidUsed s k.lid cid = false ∧ granted c k p.ip = true ∧ dupeConn a p = false :=
   ⟨(connectChecks_ok h).2.2.2.1, (connectChecks_ok h).2.1, (connectChecks_ok h).2.2.1⟩
 
 /-- **pipe identity**: once bound, bytes from the client's data connection go to exactly that peer
@@ -213,7 +213,7 @@ theorem pipe_identity (c : Cfg) (s : State) :
 def cfg0 : Cfg :=
   { permT := 300 * sec, chanT := 600 * sec, lifeT := 600 * sec, maxLife := 3600 * sec, rtpMTU := 1600
     inMTU := 1600, bindT := 30 * sec, resvT := 30 * sec, strict := false, hasAuth := true, hasQuota := false
-    relay4 := ⟨false, 1⟩, relay6 := ⟨true, 1⟩, lis := [⟨true, 1, false, []⟩] }
+    relay4 := ⟨false, 1⟩, relay6 := ⟨true, 1⟩, lis := [⟨true, 1, false, [], []⟩] }
 def okCred : Cred := ⟨true, true, true, true, true, true, true, "alice"⟩
 def k0 : Key := ⟨0, ⟨⟨false, 7⟩, 4000⟩⟩
 def kd : Key := ⟨0, ⟨⟨false, 7⟩, 7001⟩⟩
